@@ -133,6 +133,12 @@ impl<T> RawTable<T> {
         // Calculate the minimal number of elements that we need to reserve
         // space for.
         let mut need = self.table.len();
+        // An old table that has been emptied in place (e.g., by `retain`) holds nothing we still
+        // need to move, so the resize is over. Release it now; otherwise the main table could be
+        // shrunk to exactly its length while leftovers still appear to be pending.
+        if self.leftovers.as_ref().map_or(false, |lo| lo.table.len() == 0) {
+            let _ = self.leftovers.take();
+        }
         // We need to make sure that we never have to resize while there
         // are still leftovers.
         if let Some(ref lo) = self.leftovers {
